@@ -55,21 +55,46 @@ func (e *c02Env) newRepo(store *kit.Store, version uint, mode CompressionMode, n
 	return repo
 }
 
-func (e *c02Env) open(store *kit.Store, proc string, c *cache.Cache) *Repository {
-	repo, err := New(store.Backend(proc), Options{})
+// tryOpen opens the repository in the store with a fresh Repository object and loads the index.
+func (e *c02Env) tryOpen(store *kit.Store, proc string, c *cache.Cache) (repo *Repository, err error) {
+	defer func() {
+		if p := recover(); p != nil {
+			err = fmt.Errorf("panic: %v", p)
+		}
+	}()
+	repo, err = New(store.Backend(proc), Options{})
 	if err != nil {
-		e.t.Fatalf("New: %v", err)
+		return nil, err
 	}
 	if err := repo.SearchKey(context.TODO(), test.TestPassword, 10, ""); err != nil {
-		e.t.Fatalf("SearchKey: %v", err)
+		return nil, fmt.Errorf("SearchKey: %w", err)
 	}
 	if c != nil {
 		repo.UseCache(c, func(string, ...any) {})
 	}
 	if err := repo.LoadIndex(context.TODO(), restic.NoopTerminalCounterFactory); err != nil {
-		e.t.Fatalf("LoadIndex: %v", err)
+		return nil, fmt.Errorf("LoadIndex: %w", err)
 	}
-	return repo
+	return repo, nil
+}
+
+// open is tryOpen on a store nobody disturbs: a failure is itself an observation (an undisturbed read of the key,
+// config or index files failed) and is recorded for Fn_ContentAddr (Healthy => no error); nil is returned then.
+func (e *c02Env) open(store *kit.Store, proc string, c *cache.Cache, cfg string) *Repository {
+	repo, err := e.tryOpen(store, proc, c)
+	if err == nil {
+		return repo
+	}
+	cs := "none"
+	if c != nil {
+		cs = "good"
+	}
+	rec := map[string]any{"op": "read", "cfg": cfg, "target": "repository-open", "api": "LoadUnpacked", "script": []string{"good"}, "cache": cs,
+		"results": []c02Result{{Err: true}}, "attempts": 0, "panic": false, "msg": c02Short(err.Error())}
+	e.recs.Write(rec)
+	e.n["read/open-failed"]++
+	e.res.Case("open|"+cfg+"|"+proc, true)
+	return nil
 }
 
 // saveBlobs saves the blobs in one upload (one flush); returns ids, known flags and the error.
@@ -120,7 +145,7 @@ func (e *c02Env) walk(store *kit.Store, key *crypto.Key, cfg string) {
 	for h, data := range store.Files() {
 		tn := c02TypeNames[h.Type]
 		rec := map[string]any{"op": "stored", "cfg": cfg, "ftype": tn, "name_ok": h.Name == hex.EncodeToString(func() []byte { s := sha256.Sum256(data); return s[:] }()), "size": len(data), "blobs": []any{}}
-		if h.Type == backend.PackFile {
+		if h.Type == backend.PackFile && key != nil {
 			blobs := []any{}
 			list, _, err := pack.List(key, bytes.NewReader(data), int64(len(data)))
 			if err != nil {
@@ -210,7 +235,11 @@ func (e *c02Env) part1(version uint, mode CompressionMode, noVerify bool) {
 				e.res.Case(fmt.Sprintf("save|%s|%s|%d|%s", cfg, bt, sz, cl), true)
 				if err != nil {
 					// a broken upload leaves the repository object unusable for further uploads: start over
-					repo = e.open(store, "writer", nil)
+					repo = e.open(store, "writer", nil, cfg)
+					if repo == nil {
+						e.walk(store, nil, cfg)
+						return
+					}
 					repo.packerCount = 1
 					repo.opts.NoExtraVerify = noVerify
 					repo.opts.Compression = mode
@@ -244,6 +273,8 @@ func (e *c02Env) part1(version uint, mode CompressionMode, noVerify bool) {
 		e.res.Case(fmt.Sprintf("save|%s|unpacked|%d", cfg, i), true)
 	}
 	e.walk(store, repo.Key(), cfg)
+	// everything that was saved can be opened and indexed again by a fresh repository object
+	e.open(store, "reopen", nil, cfg)
 }
 
 // ------------------------------------------------------------------------------------------------ part 2
@@ -404,14 +435,35 @@ func c02Corrupt(dir, name string) bool {
 	return found
 }
 
+type c02SetupFailed struct{}
+
+// setupFail: preparing the read scenarios on an undisturbed store failed (a save, an index lookup or a stored file is
+// missing).  That is an observation about the real code, recorded for Fn_ContentAddr (Healthy => no error).
+func (e *c02Env) setupFail(cfg, format string, args ...any) {
+	rec := map[string]any{"op": "read", "cfg": cfg, "target": "scenario-setup", "api": "LoadBlob", "script": []string{"good"}, "cache": "none",
+		"results": []c02Result{{Err: true}}, "attempts": 0, "panic": false, "msg": c02Short(fmt.Sprintf(format, args...))}
+	e.recs.Write(rec)
+	e.n["read/setup-failed"]++
+	e.res.Case("setup|"+cfg, true)
+	panic(c02SetupFailed{})
+}
+
 func (e *c02Env) part2(version uint, mode CompressionMode, scripts [][]string, withCache bool) {
 	cfg := fmt.Sprintf("v%d/%s", version, mode.String())
 	store := kit.NewStore()
 	repo := e.newRepo(store, version, mode, false)
 	ctx := context.TODO()
+	defer func() {
+		if p := recover(); p != nil {
+			if _, ok := p.(c02SetupFailed); !ok {
+				panic(p)
+			}
+			e.walk(store, repo.Key(), cfg)
+		}
+	}()
 	must := func(ids []restic.ID, _ []bool, err error, _ string) []restic.ID {
 		if err != nil {
-			e.t.Fatalf("setup save: %v", err)
+			e.setupFail(cfg, "setup save: %v", err)
 		}
 		return ids
 	}
@@ -419,12 +471,12 @@ func (e *c02Env) part2(version uint, mode CompressionMode, scripts [][]string, w
 	packOf := func(bt restic.BlobType, id restic.ID) (restic.ID, []byte) {
 		pbs := repo.LookupBlob(restic.BlobHandle{Type: bt, ID: id})
 		if len(pbs) == 0 {
-			e.t.Fatalf("blob not indexed")
+			e.setupFail(cfg, "blob not indexed")
 		}
 		pid := pbs[len(pbs)-1].PackID()
 		data, ok := store.Get(backend.Handle{Type: backend.PackFile, Name: pid.String()})
 		if !ok {
-			e.t.Fatalf("pack missing")
+			e.setupFail(cfg, "pack missing")
 		}
 		return pid, data
 	}
@@ -474,7 +526,7 @@ func (e *c02Env) part2(version uint, mode CompressionMode, scripts [][]string, w
 		doc := []byte(fmt.Sprintf(`{"time":"2024-02-0%dT00:00:00Z","hostname":"h","paths":["/data/%d"],"pad":"%s"}`, n, n, cfg))
 		id, err := (&internalRepository{repo}).SaveUnpacked(ctx, ft, doc)
 		if err != nil {
-			e.t.Fatalf("setup SaveUnpacked: %v", err)
+			e.setupFail(cfg, "setup SaveUnpacked: %v", err)
 		}
 		raw, _ := store.Get(backend.Handle{Type: backend.FileType(ft), Name: id.String()})
 		return id, doc, raw
@@ -488,7 +540,7 @@ func (e *c02Env) part2(version uint, mode CompressionMode, scripts [][]string, w
 	{
 		names := store.Names(backend.IndexFile)
 		if len(names) < 2 {
-			e.t.Fatalf("expected several index files")
+			e.setupFail(cfg, "expected several index files")
 		}
 		id1, _ := restic.ParseID(names[0])
 		raw1, _ := store.Get(backend.Handle{Type: backend.IndexFile, Name: names[0]})
@@ -498,7 +550,7 @@ func (e *c02Env) part2(version uint, mode CompressionMode, scripts [][]string, w
 			doc, err = e.dec.DecodeAll(doc[1:], nil)
 		}
 		if err != nil {
-			e.t.Fatalf("cannot decode index file independently: %v", err)
+			e.setupFail(cfg, "cannot decode index file independently: %v", err)
 		}
 		targets = append(targets, &c02Target{name: "index", h: backend.Handle{Type: backend.IndexFile, Name: names[0]}, twin: raw2, apis: []string{"LoadRaw", "LoadUnpacked"}, ft: restic.IndexFile, id: id1, doc: doc, cache: true})
 		knames := store.Names(backend.KeyFile)
@@ -507,7 +559,11 @@ func (e *c02Env) part2(version uint, mode CompressionMode, scripts [][]string, w
 	}
 
 	// ---- no cache: one reader, every script
-	rd := e.open(store, "reader", nil)
+	rd := e.open(store, "reader", nil, cfg)
+	if rd == nil {
+		e.walk(store, repo.Key(), cfg)
+		return
+	}
 	for _, tg := range targets {
 		for _, api := range tg.apis {
 			for _, sc := range scripts {
@@ -535,7 +591,10 @@ func (e *c02Env) part2(version uint, mode CompressionMode, scripts [][]string, w
 						e.res.Problem("cache.New: %v", err)
 						return
 					}
-					crd := e.open(store, "cached-reader", c)
+					crd := e.open(store, "cached-reader", c, cfg)
+					if crd == nil {
+						return
+					}
 					// warm the cache with an undisturbed read through the same API
 					if res, pn := e.run(crd, tg, api); pn != "" || len(res) == 0 || res[0].Err || !res[0].HashOK {
 						e.res.Problem("undisturbed warm-up read failed for %s %s: %v %s", tg.name, api, res, pn)
